@@ -19,6 +19,7 @@ import SpecVerif.Model.Window
 import SpecVerif.Model.Criteria
 import SpecVerif.Model.EigenCrit
 import SpecVerif.Model.Dpss
+import SpecVerif.Model.DpssTri
 import SpecVerif.Model.Lpc
 /-
   Line-protocol driver for the executable model (no Mathlib anywhere below this file, so it links as a
@@ -499,6 +500,11 @@ def handleReal (cmd : String) (hd : List String) (vs : List (List CFloat)) : Opt
       let vals := if mdl then mdlEigen S (2 * N) else aicEigen S (2 * N)
       if vals.isEmpty then some (.error "value")      -- numpy.argmin of an empty sequence raises ValueError
       else some (.ok ([vals, [Float.ofNat (signalSpaceCrit S N mdl)]].map (fun w => w.map (fun v => (⟨v, 0.0⟩ : CFloat)))))
+  | "dpsstri" =>
+      -- dpsstri N | W      (W = npi/num_points as the C routine computes it)   → diag (N entries), offdiag (N entries,
+      -- offdiag[i] couples rows i-1 and i; offdiag[0] = 0 is unused), exactly the arrays `multitap` hands to EISPACK
+      let r := dpssTriArrays (natAt hd 0) (par 0)
+      some (.ok ([r.1, r.2].map (fun w => w.map (fun v => (⟨v, 0.0⟩ : CFloat)))))
   | "enbw" => out [enbw ((vs.getD 0 []).map (fun z => z.re))]
   | "rc2lar" => out ((vs.getD 0 []).map (fun z => rc2lar z.re))
   | "lar2rc" => out ((vs.getD 0 []).map (fun z => lar2rc z.re))
